@@ -36,6 +36,14 @@ ExpDelta(c, k) ==
          + B2N(k = DurationKey)
          + Cardinality({i \in 1..Len(c.codes) : k = ResponsesKey(c.codes[i])})
          - B2N(c.kind = "close" /\ k = SessionsOpenKey)
+    \* a session open that first asks the BMC for its cipher suites ("opendisc"), or that enumeration on its own ("disc"):
+    \* c.ntx Get Channel Cipher Suites commands, each transmitted once and answered with the valid responses c.codes, none
+    \* of them failing; the open itself is one attempt, and one failure if it returned an error - whether the error arose
+    \* during the enumeration, the choice of a suite or the RAKP exchange
+    [] c.kind \in {"opendisc", "disc"} ->
+         (IF c.kind = "opendisc" THEN B2N(k = SessAttemptsKey) + B2N(k = SessFailuresKey /\ c.err) + B2N(k = SessionsOpenKey /\ ~c.err) ELSE 0)
+         + (IF k = AttemptsKey(c.name) \/ k = DurationKey THEN c.ntx ELSE 0)
+         + Cardinality({i \in 1..Len(c.codes) : k = ResponsesKey(c.codes[i])})
     [] c.kind = "open" -> B2N(k = SessAttemptsKey) + B2N(k = SessFailuresKey /\ c.err) + B2N(k = SessionsOpenKey /\ ~c.err)
     [] c.kind = "dial" -> B2N(k = ConnAttemptsKey) + B2N(k = ConnsOpenKey)
     [] c.kind = "dialfail" -> B2N(k = ConnAttemptsKey) + B2N(k = ConnFailuresKey)
@@ -43,6 +51,8 @@ ExpDelta(c, k) ==
     [] OTHER -> 0
 KeysOf(c) == IF c.kind \in {"command", "close"}
              THEN {AttemptsKey(c.name), FailuresKey(c.name), RetriesKey, DurationKey, SessionsOpenKey} \cup {ResponsesKey(c.codes[i]) : i \in 1..Len(c.codes)}
+             ELSE IF c.kind \in {"opendisc", "disc"}
+             THEN {AttemptsKey(c.name), FailuresKey(c.name), RetriesKey, DurationKey, SessAttemptsKey, SessFailuresKey, SessionsOpenKey} \cup {ResponsesKey(c.codes[i]) : i \in 1..Len(c.codes)}
              ELSE {SessAttemptsKey, SessFailuresKey, SessionsOpenKey, ConnAttemptsKey, ConnFailuresKey, ConnsOpenKey}
 Get(mrec, k) == IF k \in DOMAIN mrec THEN mrec[k] ELSE 0
 \* transport-level histograms are owned by the real socket transport and are not part of C18
